@@ -4,6 +4,7 @@ package main
 
 import (
 	"crypto/ed25519"
+	"crypto/sha256"
 	"encoding/base64"
 	"encoding/json"
 	"fmt"
@@ -262,7 +263,27 @@ func transformReplay(args []string) {
 				case key.Type == "Ed25519VerificationKey2018" || key.Type == "Ed25519VerificationKey2020":
 					m["publicKeyJwk"] = map[string]interface{}{"kty": "OKP", "crv": "Ed25519", "x": ed.JWK.X}
 				default:
-					m["publicKeyJwk"] = map[string]interface{}{"kty": "EC", "crv": "P-256", "x": ec.JWK.X, "y": ec.JWK.Y}
+					// JWKs of the three families the document validator accepts, with and without the optional
+					// public members
+					b2i := map[bool]int{true: 1}
+
+					switch (key.ID + len(c.Keys) + b2i[c.Base] + 2*b2i[c.MethodCtx]) % 4 {
+					case 0, 1:
+						m["publicKeyJwk"] = map[string]interface{}{"kty": "EC", "crv": "P-256", "x": ec.JWK.X, "y": ec.JWK.Y}
+					case 2:
+						var n []byte
+						for i := 0; i < 8; i++ {
+							h := sha256.Sum256([]byte(fmt.Sprintf("rsa modulus %d/%d", key.ID, i)))
+							n = append(n, h[:]...)
+						}
+
+						n[0] |= 0x80
+						n[len(n)-1] |= 1
+						m["publicKeyJwk"] = map[string]interface{}{"kty": "RSA", "n": b64(n), "e": "AQAB", "alg": "RS256", "kid": "rsa-1", "use": "sig"}
+					case 3:
+						k1 := pool.Get("k1", fmt.Sprintf("tr%d", key.ID))
+						m["publicKeyJwk"] = map[string]interface{}{"kty": "EC", "crv": "secp256k1", "x": k1.JWK.X, "y": k1.JWK.Y, "alg": "ES256K", "key_ops": []interface{}{"verify"}}
+					}
 				}
 
 				given[key.ID] = m
@@ -464,6 +485,56 @@ func transformReplay(args []string) {
 			for i, o := range c.Ops {
 				ops = append(ops, &operation.AnchoredOperation{Type: operation.TypeUpdate, UniqueSuffix: "s", OperationRequest: []byte(fmt.Sprintf(`{"i":%d}`, i)),
 					TransactionTime: o.T, TransactionNumber: o.N, CanonicalReference: fmt.Sprintf("ref%d", o.Ref)})
+			}
+
+			// the same list with the times and numbers spread over the whole range of their type (an order-preserving
+			// map of 0, 1, 2): it must come out in the same order
+			{
+				spread := []uint64{0, 1, 1<<63 + 1}
+
+				var wide []*operation.AnchoredOperation
+
+				for _, o := range ops {
+					w := *o
+					w.TransactionTime, w.TransactionNumber = spread[o.TransactionTime], spread[o.TransactionNumber]
+					wide = append(wide, &w)
+				}
+
+				order := func(list []*operation.AnchoredOperation) (out []string) {
+					rmw := &protocol.ResolutionModel{Doc: document.Document{}}
+					if c.Published {
+						rmw.PublishedOperations = list
+					} else {
+						rmw.UnpublishedOperations = list
+					}
+
+					res, err := didtransformer.New(didtransformer.WithIncludePublishedOperations(true), didtransformer.WithIncludeUnpublishedOperations(true)).
+						TransformDocument(rmw, protocol.TransformationInfo{"id": tDID, "published": true})
+					if err != nil {
+						return []string{"error: " + err.Error()}
+					}
+
+					md := generic(res.DocumentMetadata).(map[string]interface{})
+					method, _ := md["method"].(map[string]interface{})
+
+					for _, name := range []string{"publishedOperations", "unpublishedOperations"} {
+						l, _ := method[name].([]interface{})
+						for _, x := range l {
+							mm, _ := x.(map[string]interface{})
+							raw, _ := b64stdDecode(mm["operation"])
+							out = append(out, string(raw))
+						}
+					}
+
+					return out
+				}
+
+				if exp.Deterministic {
+					if a, b := order(ops), order(wide); !reflect.DeepEqual(a, b) {
+						fail("operations", "times and numbers spread over the range of uint64 (0, 1, 2^63+1 for 0, 1, 2): another order", a, b)
+						return
+					}
+				}
 			}
 
 			rm := &protocol.ResolutionModel{Doc: document.Document{}}
